@@ -81,37 +81,31 @@ def assertion_order(P, chk):
                     "a posting with an amount is accepted without its assertion having been found exact",
                     "Ok under (no `=`) or is_absolute_zero(assert_balance(..))")
     chk.floor("Ok returns of the amount arm", n, 1)
-    # the failing edge
-    errs = [(bb, rv) for bb, v, rv in q.ok_err_assignments(b) if v == "Err"]
-    okerr = False
-    for bb, rv in errs:
-        s = mir.operand_shape(b, rv["fields"][0]["op"])
-        if "BalanceAssertionFailure" not in s:
-            continue
+    # the failing edge: wherever a BalanceAssertionFailure is built (in process_posting itself or in a helper of it that
+    # was folded in), it is built on the non-zero edge from this posting's data, and it leaves the function as its error
+    built = []
+    for i in sorted(b.live_blocks()):
+        for st in b.blocks[i]["stmts"]:
+            if st["k"] == "assign" and st["rv"]["k"] == "aggregate" and st["rv"].get("variant") == "BalanceAssertionFailure":
+                built.append((i, st))
+    returned = False
+    for bb, st in built:
+        agg = st["rv"]
         nz = any(cn == AMT + "::is_absolute_zero" and lab is False for cn, lab, ct in q.guard_calls(b, bb))
-        # fields
-        agg = None
-        for r in prov(b, rv["fields"][0]["op"]):
-            if r.kind == "agg" and r.site is not None:
-                for st in b.blocks[r.site]["stmts"]:
-                    if st["k"] == "assign" and st["rv"]["k"] == "aggregate" and st["rv"].get("variant") == "BalanceAssertionFailure":
-                        agg = st["rv"]
-        fields_ok = False
-        if agg:
-            f = {x["name"]: x["op"] for x in agg["fields"]}
-            acc = q.chain_ok(b, f["account_span"], lambda r: is_posting_field(r, "account"), required=("span",))
-            bsp = q.chain_ok(b, f["balance_span"], lambda r: is_posting_field(r, "balance"), required=("span",))
-            comp = " ".join("/".join(n) for n, r in q.chains(b, f["computed"]))
-            fields_ok = acc and bsp
-            # computed renders the same balance the assertion looked at
-            disp = mir.call_sites(b, [AMT + "::as_inline_display"])
-            comp_ok = any(panics.same_root_loose(b, t["args"][0], recv) for bb2, t in disp)
-            fields_ok = fields_ok and comp_ok
-        okerr = nz and fields_ok
-        chk.require(okerr, R_ORD, "process_posting|failure carries this posting's spans and the computed balance", b.loc(bb),
-                    "BalanceAssertionFailure is not built from posting.account.span(), the constraint's span() and the asserted balance",
+        f = {x["name"]: x["op"] for x in agg["fields"]}
+        acc = q.chain_ok(b, f["account_span"], lambda r: is_posting_field(r, "account"), required=("span",))
+        bsp = q.chain_ok(b, f["balance_span"], lambda r: is_posting_field(r, "balance"), required=("span",))
+        # computed renders the same balance the assertion looked at
+        disp = mir.call_sites(b, [AMT + "::as_inline_display"])
+        comp_ok = any(panics.same_root_loose(b, t["args"][0], recv) for bb2, t in disp)
+        fields_ok = acc and bsp and comp_ok
+        chk.require(nz and fields_ok, R_ORD, "process_posting|failure carries this posting's spans and the computed balance", b.loc(bb),
+                    "BalanceAssertionFailure is not built (on the non-zero edge) from posting.account.span(), the constraint's span() and the asserted balance"
+                    " (non-zero edge=%s account span=%s constraint span=%s computed=%s)" % (nz, acc, bsp, comp_ok),
                     "Err(BalanceAssertionFailure{account_span, balance_span, computed}) on the non-zero edge")
-    chk.require(any("BalanceAssertionFailure" in mir.operand_shape(b, rv["fields"][0]["op"]) for bb, rv in errs), R_ORD,
+        if not st["place"]["p"] and q.flows_to_return(b, st["place"]["l"]):
+            returned = True
+    chk.require(returned, R_ORD,
                 "process_posting|has a BalanceAssertionFailure exit", b.loc(), "no BalanceAssertionFailure is ever returned", "present")
 
 
